@@ -42,8 +42,8 @@ SHAPES = [[3], [5], [6], [2, 3], [3, 4], [4, 1], [1, 4], [4, 4], [3, 3], [2, 3, 
           [1, 1], [1], [2, 2, 3]]
 IGNORED = [[], [], [], [], [0], [1], [2], [0, 2], [1, 3], [0, 1], [0, 1, 2, 3]]
 
-# budgets for the MEASURED residuals (binary64): fixed after measuring seeds 0,1,2 of both tiers (largest values seen:
-# see coverage.measurement.measured_max), margin >= 10x
+# budgets for the MEASURED residuals (binary64): fixed after measuring seeds 0,1,2 of both tiers (largest values seen over
+# ~75 000 refreshes, n <= 16: ||Q^T Q - I|| 3.8e-15, ||Q Q^T - I|| 2.7e-15, off-diagonal of Q^T L Q / ||L|| 7.6e-16), margin > 50x
 BUDGET = {"orth_cols": 2e-13, "orth_rows": 2e-13, "offdiag_rel": 2e-13}
 # loose numeric sanity bound (measurement) of the low-precision pairings against the float64/float64 run after 6 steps
 # (largest values seen over 6 seeds: float32 anywhere 7.5e-7, bfloat16 factors 2.7e-3, bfloat16 parameters 2.2e-2)
